@@ -31,7 +31,7 @@ Definition applied_obs (s : state) : list (nat * nat * bool) :=
 Definition live_obs (s : state) : list (nat * (dict * dict * bool)) :=
   map (fun e => (fst e, (r_data (snd e), r_meta (snd e), r_closed (snd e)))) (live (wstore s)).
 Definition refused_obs (s : state) : list (nat * nat) :=
-  map (fun e => (fst (fst e), o_idx (snd (fst e)))) (filter (fun e => negb (snd e)) (hist s)).
+  map (fun e => (fst (fst e), o_idx (snd (fst e)))) (filter (fun e => negb (snd e) && negb (is_abort (snd (fst e)))) (hist s)).
 
 Definition is_done (p : pc) : bool := match p with Done => true | _ => false end.
 
